@@ -1313,11 +1313,26 @@ static void free_objs(qtreetbl_obj_t *obj) {
     free(obj);
 }
 
+static void clear_tids(qtreetbl_obj_t *obj) {
+    if (obj == NULL) {
+        return;
+    }
+    obj->tid = 0;
+    clear_tids(obj->left);
+    clear_tids(obj->right);
+}
+
 static uint8_t reset_iterator(qtreetbl_t *tbl) {
     if (tbl->root != NULL) {
         tbl->root->next = NULL;
     }
-    return (++tbl->tid);
+    if (++tbl->tid == 0) {
+        // the 8 bit sequencer wrapped around. 0 is what new objects carry and
+        // marks of 256 resets ago would look current, so forget all marks.
+        clear_tids(tbl->root);
+        tbl->tid = 1;
+    }
+    return tbl->tid;
 }
 
 static void print_branch(struct branch_obj_s *branch, FILE *out) {
